@@ -57,7 +57,7 @@ def clsName : Cls → String
   | .symbolNotFound => "symbol-not-found" | .trampKind => "tramp-kind" | .trampSmall => "tramp-small" | .funcSmall => "func-small"
   | .alreadyPatched => "already-patched" | .illegalParam => "illegalparam" | .illegalParamType => "illegalparamtype"
   | .ictxReturn => "ictx-return" | .ifaceNoAs => "iface-no-as" | .nameEmpty => "name-empty" | .funcDefEmpty => "funcdef-empty"
-  | .targetKind => "target-kind" | .replKind => "repl-kind"
+  | .targetKind => "target-kind" | .replKind => "repl-kind" | .inCount => "in-count" | .inType => "in-type"
 
 def resStr : R Unit → String
   | .ok _ => "ok chain=- walk=-"
@@ -112,7 +112,81 @@ def kindOfTok (tok : String) : Kind :=
   | some .expr => .ptr
   | _ => .invalid
 
+/-! ### sequences -/
+
+def splitSemi : List String → List (List String)
+  | [] => [[]]
+  | t :: rest =>
+    match splitSemi rest with
+    | [] => [[t]]
+    | cur :: more => if t = ";" then [] :: cur :: more else (t :: cur) :: more
+
+def vlist? (s : String) : Option (List V) := (list? s).mapM valOf
+
+/-- does a matcher built from these value tokens match the probe's call (which passes the stub value of every
+    parameter type)?  token-wise: `any()` or the parameter's own token -/
+def hitOf (args : String) (ins : List String) : Bool :=
+  let a := list? args
+  a.length = ins.length && (a.zip ins).all (fun (x, y) => x = "any()" || x = y)
+
+def groups? (s : String) (ins : List String) : Option (List (List V × Bool)) :=
+  (s.splitOn "|").mapM (fun g => (vlist? g).map (fun v => (v, hitOf g ins)))
+
+def pairs? (s : String) (ins : List String) : Option (List (List V × Bool × List V)) :=
+  (s.splitOn "|").mapM (fun p => match p.splitOn "=" with
+    | [a, r] => do let av ← vlist? a; let rv ← vlist? r; pure (av, hitOf a ins, rv)
+    | _ => none)
+
+def step? (ins : List String) : List String → Option Step
+  | ["apply", ci, co, cv] => (sig? ci co cv).map (fun s => .apply (.fn s))
+  | ["return", vs] => (vals? vs).map .ret
+  | ["when", as] => (vals? as).map (fun a => .when_ a (hitOf as ins))
+  | ["returns", gs] => ((gs.splitOn "|").mapM vlist?).map .returns
+  | ["andreturn", vs] => (vals? vs).map .andReturn
+  | ["in", gs] => (groups? gs ins).map .in_
+  | ["matches", ps] => (pairs? ps ins).map .matchPairs
+  | ["again"] => some .again
+  | _ => none
+
+def steps? (ins : List String) (toks : List String) : Option (List Step) := (splitSemi toks).mapM (step? ins)
+
+def behIface (s : IS) : String :=
+  if !s.set then "nil" else match s.imp with
+    | .none => "nil" | .cb => "cb"
+    | .whenFn => match s.when with
+      | some w => if w.anyHit || w.hasDefault then "stub" else "nomatch"
+      | none => "nomatch"
+
+def handleSeq (toks : List String) : Option String :=
+  match toks with
+  | "c13" :: "seqf" :: tgt :: ins :: outs :: var :: pre :: st =>
+    match tgtId tgt, sig? ins outs var, steps? (list? ins) st with
+    | some t, some s, some steps =>
+      let g0 := if pre = "1" then preState t else G.init
+      let b0 : Beh := if pre = "1" then .cb else .orig
+      let (a, b, r, i) := runSeq { id := t, sig := s } false 901 ⟨g0, none, .none⟩ steps 0
+      let acc := match r with | .ok _ => true | .error _ => false
+      some s!"{resStr r} step={i} before={behName (behOf b0 a)} diff={diffStr a.g b.g t none acc} beh={behName (behOf b0 b)} reg={regName b.g t}"
+    | _, _, _ => some "bad-op"
+  | "c13" :: "seqm" :: _name :: ins :: outs :: var :: st =>
+    match sig? ins outs var, steps? ((list? ins).drop 1) st with
+    | some s, some steps =>
+      let (a, b, r, i) := runSeq { id := 0, sig := s } true 901 ⟨G.init, none, .none⟩ steps 0
+      let acc := match r with | .ok _ => true | .error _ => false
+      some s!"{resStr r} step={i} before={behName (behOf .orig a)} diff={diffStr a.g b.g 0 none acc} beh={behName (behOf .orig b)} reg={regName b.g 0}"
+    | _, _ => some "bad-op"
+  | "c13" :: "seqi" :: _name :: mins :: mouts :: ci :: co :: st =>
+    match sig? mins mouts "0", sig? ci co "0", steps? ((list? ci).drop 1) st with
+    | some m, some fn, some steps =>
+      let (a, b, r, i) := runIfaceSeq m fn ⟨false, none, .none⟩ steps 0
+      some s!"{resStr r} step={i} before={behIface a} beh={behIface b} var={if b.set then "set" else "nil"}"
+    | _, _, _ => some "bad-op"
+  | _ => none
+
 def handle (toks : List String) : Option String :=
+  match handleSeq toks with
+  | some r => some r
+  | none =>
   match toks with
   | "c13" :: "func" :: tgt :: ins :: outs :: var :: pre :: org :: act =>
     match tgtId tgt, sig? ins outs var, originOf org, action? act with
